@@ -1149,7 +1149,7 @@ class Lookup(Function):
             self.points = points
 
     def term(self, time="t"):
-        return "model._lookup({},{})".format(self.element, self.points)
+        return "model._lookup({},{})".format(extractTerm(self.element, time), self.points)
 
 
 class Step(Function):
@@ -1387,8 +1387,8 @@ class Sinwave(Function):
         self.amplitude = amplitude
         self.period = period
 
-    def term(self, time="t"): return "( np.sin(2*np.pi / {} * (t-model.starttime) ) * {} )".format(
-        extractTerm(self.period, time), extractTerm(self.amplitude, time))
+    def term(self, time="t"): return "( np.sin(2*np.pi / {} * ({}-model.starttime) ) * {} )".format(
+        extractTerm(self.period, time), time, extractTerm(self.amplitude, time))
 
 
 class Coswave(Function):
@@ -1396,8 +1396,8 @@ class Coswave(Function):
         self.amplitude = amplitude
         self.period = period
 
-    def term(self, time="t"): return "( np.cos(2*np.pi / {} * (t-model.starttime) ) * {} )".format(
-        extractTerm(self.period, time), extractTerm(self.amplitude, time))
+    def term(self, time="t"): return "( np.cos(2*np.pi / {} * ({}-model.starttime) ) * {} )".format(
+        extractTerm(self.period, time), time, extractTerm(self.amplitude, time))
 
 
 class Inf(Function):
